@@ -160,7 +160,27 @@ def gen_knobs(rng, prop, profile):
     api = "module" if rng.random() < 0.2 else "object"
     # (keys obtained THROUGH the second cache - nested requests on two caches - were tried and removed again:
     # see DESIGN 15.5, item 15)
+    import hashlib as _hl
+    _h = _hl.md5(json.dumps(keys, sort_keys=True).encode()).digest()
+    # (derived, not drawn) most bytes a single sendfile() call moves: shutil.copyfile and hand-written copies use it
+    sendfile_cap = [None, None, 4096, 100][_h[1] % 4]
+    if _h[2] % 12 == 0 and len(keys) >= 2 and all(k["scheme"] == "sim" and not k["comment"] for k in keys[:2]):
+        # two uris that are different strings but canonically equivalent under Unicode normalisation (NFC / NFD),
+        # naming two different objects on a byte-exact store
+        a, b = "caf\u00e9_%d.bin" % (_h[3] % 7), "cafe\u0301_%d.bin" % (_h[3] % 7)
+        taken = {(x["scheme"], x["res"], x["comment"]) for x in keys[2:]}
+        if ("sim", a, "") not in taken and ("sim", b, "") not in taken:
+            res_sizes[a], res_sizes[b] = 100 + 100 * (_h[4] % 5), 100 + 100 * (_h[5] % 5)
+            keys[0] = dict(keys[0], res=a)
+            keys[1] = dict(keys[1], res=b)
+            if cls == "all":
+                max_bytes = sum(res_sizes[k["res"]] + (4 if k["pp"] else 0) for k in keys) + 500
+    # (derived from the keys, not drawn: no other decision of the run moves) every second run whose uris are all
+    # https:// or file:// opens the cache without a resources argument - the default list is built by the cache
+    default_resources = all(k["scheme"] in ("https", "file") for k in keys) and \
+        _hl.md5(json.dumps(keys, sort_keys=True).encode()).digest()[0] % 2 == 0
     return {
+        "default_resources": default_resources, "sendfile_cap": sendfile_cap,
         "keys": keys, "res_sizes": res_sizes, "max_bytes": int(max_bytes), "size_class": cls,
         "parallel": profile.get("parallel", rng.random() < 0.55),
         "allow_missing": rng.random() < 0.6,
